@@ -100,6 +100,18 @@ def run(cx):
     ob = cx.calls(f, r'Peekable<.*> as .*Stream>::poll_next$|Stream>::poll_next$')
     ob = [s for s in ob if 'pollable_split(arg1).1' in s.term]
     cx.guard('C17.Q1', ob, {'not-sending': r'^!ok\(var\(\w+\)\)$'}, expect=1, fn=f)
+    # the in-flight write state is never emptied across a would-block: from the take() whose value is switched on, every
+    # path to a `return Poll::Pending` first stores a state back, or goes through "message completely flushed" / "nothing in flight"
+    takes = [s for s in cx.calls(f, r'Option<T>::take$|Option::take$|mem::take$') if not cx.has_guard(s, r'^is\(.*,Flushing\)$')]
+    cx.check('C17.Q1', len(takes) == 1, f.path, 'calls', 'single-take-of-the-write-state', str(len(takes)))
+    pend = cx.assigns(f, r'^Poll::Pending$', place=None)
+    cx.floor('C17.Q1', len(pend), 4, 'would-block returns in poll_next')
+    back = {s.bb for s in cx.assigns(f, r'^Option::Some\(WriteTcpState::', place=None)}
+    cx.check('C17.Q1', len(back) >= 5, f.path, 'stores', 'write-state-stores-present', str(len(back)))
+    for t_ in takes[:1]:
+        start = f.succs(t_.bb)
+        cx.must_pass('C17.Q1', f, pend, via_blocks=back, via_edge=r'^is\(.*@Some\.0,Flushing\)$|^!ok\(Option::take\(|^!ok\(var\(\w+\)\)$|^!ok\(phi\(',
+                     start_blocks=[b for b in start if not f.blocks[b]['cleanup']], what='write-state-kept-across-would-block')
     ns = cx.assigns(f, r'^Option::Some\(WriteTcpState::', place=None)
     table = [
         (r'^Option::Some\(WriteTcpState::LenBytes\(var\(\w+\)@Some\.0@LenBytes\.pos,', {'from-LenBytes': r'^is\(var\(\w+\)@Some\.0,LenBytes\)$', 'prefix-incomplete': r'^lt\(var\(\w+\)@Some\.0@LenBytes\.pos,slice::len\(var\(\w+\)@Some\.0@LenBytes\.length\)\)$'}),
